@@ -33,10 +33,13 @@ stays certificate-checked (C12 harness): `DHierOK` only asks for well-formed blo
 holds for whatever `P`, `R`, `A_c` the setup produced.  The gathered matrices store each row with the local entries
 first (as `solver_base::init` builds its strip); they denote the same matrices as a serially built hierarchy but are
 not entry-order-identical to it.  Distributed Gauss-Seidel / ILU / Chebyshev are not instances (`mpi::relaxation::
-gauss_seidel`, `ilu0` are block-Jacobi-like and differ from their serial counterparts by design).  The model is tied
-to the code through the C11 operations it is composed of (`dist_spmv`, `dist_residual`: differential harness
-`h_mpi`) and the serial C02/C06 models of the same loops; no separate harness runs `mpi::amg::cycle` at exact
-rationals.
+gauss_seidel`, `ilu0` are block-Jacobi-like and differ from their serial counterparts by design).
+
+**Tie to the code.**  `harness/h_mpi_cycle.cpp` runs the real `mpi::amg` (constructor with given transfer operators,
+`cycle`, `apply`; damped Jacobi / SPAI-0; `skyline_lu` coarse solver) under MPI on 1..8 ranks against `DistAmg.dinit` /
+`dcycle` / `dapply` as exact rationals (binary64 on data for which every intermediate value is provably exactly
+representable) and, independently of the model, against a dense exact multigrid cycle of the gathered hierarchy —
+the statement of `dist_amg_cycle_eq_gathered` checked on the implementation.
 -/
 namespace Amgcl.C12
 open Amgcl Amgcl.Dist Amgcl.DistAmg Amgcl.Lockstep
